@@ -228,6 +228,9 @@ func (l *lexer) next(allowRegex bool) token {
 				return l.newToken(rt.tt)
 			}
 		}
+		// The failed look-ahead has been undone. The last
+		// rune read is ch again.
+		l.width = utf8.RuneLen(ch)
 	}
 
 	if tt := lookupSymbol1(ch); tt > 0 {
@@ -338,7 +341,10 @@ func (l *lexer) scanNumber() token {
 			// If there are no digits after the decimal point,
 			// don't treat the dot as part of the number. It
 			// could be part of the range operator, e.g. "1..5".
-			l.backup()
+			// (The failed look-ahead has already been undone,
+			// so unread the dot itself.)
+			l.current -= len(".")
+			l.width = 0
 			return l.newToken(typeNumber)
 		}
 	}
@@ -379,7 +385,10 @@ func (l *lexer) scanName() token {
 		l.ignore()
 	}
 
-	for {
+	// A name token always consumes at least one character, so
+	// that a lone '!' or '~' cannot produce an endless stream of
+	// empty tokens.
+	for first := !isVar; ; first = false {
 		ch := l.nextRune()
 		if ch == eof {
 			break
@@ -392,7 +401,7 @@ func (l *lexer) scanName() token {
 		}
 
 		// ...or anything that looks like an operator.
-		if lookupSymbol1(ch) > 0 || lookupSymbol2(ch) != nil {
+		if !first && (lookupSymbol1(ch) > 0 || lookupSymbol2(ch) != nil) {
 			l.backup()
 			break
 		}
@@ -457,6 +466,8 @@ func (l *lexer) backup() {
 	// is called again, we don't need to repeat the call
 	// to DecodeRuneInString.
 	l.current -= l.width
+	// A rune can only be unread once.
+	l.width = 0
 }
 
 func (l *lexer) ignore() {
